@@ -148,6 +148,12 @@ def gen_kw(rng, wp, family, allow_auto=True, no_reconcile=False):
             kw['max_tau'] = mt
     if no_reconcile and rng.random() < 0.12:
         kw['Reconcile'] = False     # legitimate on valid input (C13: same result as the default)
+    if rng.random() < 0.3:
+        # the Python types a caller may use for the same values
+        kw['__ty'] = {'MRTS': rng.choice(['float', 'int', 'npfloat', 'np0d']),
+                      'max_tau': rng.choice(['float', 'int', 'npfloat']),
+                      'interval': rng.choice(['list', 'tuple', 'listoftuples']),
+                      'indices': rng.choice(['list', 'tuple', 'arr'])}
     return kw
 
 
